@@ -282,6 +282,7 @@ def tasks(tier):
     ts += [('contracts.c10', 'peekitem_task', ('C12', True)), ('contracts.c10', 'peekitem_task', ('C12', False)),
            ('contracts.iteration', 'iter_task', ('C12', True)), ('contracts.iteration', 'iter_task', ('C12', False))]
     ts += [('contracts.traces', 'transact_block', ('C12',))]
+    ts += [('contracts.c18', 'settings_merge', ())]        # every (re)open of the directory: counters are never written back
     from contracts import c03
     ts += c03.dependency_tasks('C12', ['get', 'set', 'add', 'pop', '__delitem__', '__contains__'], policy='none', tier=tier)   # an Index never evicts      # popitem / setdefault argue with 'one block is atomic'
     return ts
@@ -299,4 +300,9 @@ def meta(results, tier):
 
 def post_process(results, tier):
     from contracts import c03 as _c03
-    return _c03.dependency_rename('C12', results)
+    out = []
+    for r in _c03.dependency_rename('C12', results):
+        if r['name'].startswith('C18.init.'):
+            r = Result('C12.open.' + r['name'][9:], r['kind'], r['verdict'], **{k: v for k, v in r.items() if k not in ('name', 'kind', 'verdict')})
+        out.append(r)
+    return out
